@@ -96,6 +96,7 @@ class H:
         self.ctxs: dict[str, Context] = {}
         self.scope: CancelScope | None = None
         self.nfresh = 0
+        self.callables: dict[str, Any] = {}
         self.probe_every = bool(plan.get("probe_every"))
 
     # ---- identity helpers
@@ -505,7 +506,18 @@ class H:
         ctx = current_context()
         cid = self.cid(ctx) or "?"
         route = spec.get("route", "ctx")
+        if spec.get("again"):
+            # the very same callable object registered once more on the same context
+            key = (cid, spec["again"])
+            if key not in self.callables:
+                return
+            f, pexc = self.callables[key]
+            ctx.add_teardown_callback(f, pexc)
+            self.sim.log("reg", ctx=cid, cb=spec["again"], route="again")
+            return
         f = self.make_cb(spec, cid)
+        if route in ("ctx", "mod"):
+            self.callables[(cid, spec["id"])] = (f, bool(spec.get("pexc")))
         if route == "mod":
             if spec.get("pexc"):
                 mod_add_teardown_callback(f, pass_exception=True)
@@ -733,6 +745,7 @@ def oracle(sim: Sim, plan: dict) -> list[dict]:
     starts: dict[str, int] = {}
     ends: dict[str, int] = {}
     regs: dict[str, str] = {}
+    reg_count: dict[str, int] = {}
     raised: dict[str, list] = {}
     for r in tr:
         seq, _step, _t, _task, kind, d = r
@@ -740,6 +753,7 @@ def oracle(sim: Sim, plan: dict) -> list[dict]:
             c = d["ctx"]
             stacks.setdefault(c, []).append(d["cb"])
             regs[d["cb"]] = c
+            reg_count[d["cb"]] = reg_count.get(d["cb"], 0) + 1
             ev = ctx_ev.get(c, {})
             if "ctx_exit" in ev and ev["ctx_exit"][0] < seq:
                 v("C13.effect", "reg_after_exit", f"callback {d['cb']} registered on {c} after it was left")
@@ -821,11 +835,12 @@ def oracle(sim: Sim, plan: dict) -> list[dict]:
             if cc != c:
                 continue
             ns, ne = starts.get(cb, 0), ends.get(cb, 0)
-            if ns != 1 or ne != 1:
+            want_n = reg_count.get(cb, 1)
+            if ns != want_n or ne != want_n:
                 v(
                     "C01.once",
-                    "missing" if ns == 0 else ("unfinished" if ne < ns else "repeated"),
-                    f"callback {cb} of {c}: started {ns}x, finished {ne}x by the time the context was left",
+                    "missing" if ns < want_n else ("unfinished" if ne < ns else "repeated"),
+                    f"callback {cb} of {c} (registered {want_n}x): started {ns}x, finished {ne}x by the time the context was left",
                 )
         xd = ev["ctx_exit"][5]
         if xd.get("closed") is not True:
@@ -1059,6 +1074,14 @@ class G:
             if r < 0.45 and budget[0] > 0:
                 budget[0] -= 1
                 body.append(["reg", self.cb()])
+                earlier = [
+                    a[1]["id"]
+                    for a in body
+                    if a[0] == "reg" and "again" not in a[1] and a[1].get("route") in ("ctx", "mod")
+                    and not any(st[0] == "reg" for st in a[1].get("body", ()))
+                ]
+                if len(earlier) >= 1 and rng.random() < 0.25:
+                    body.append(["reg", {"again": rng.choice(earlier), "id": "again", "route": "ctx", "kind": "sync", "body": []}])
             elif r < 0.7:
                 body.append(rpause(rng))
             elif r < 0.8 and depth < 3 and self.nctx < 6:
